@@ -1,0 +1,24 @@
+//go:build verif
+
+// Contracts for gocv (see /verif/DESIGN.md). Comment-only file: takes no part in any build.
+
+package broadcast
+
+// ---- assumed contracts on collaborators (trusted, reported in evidence) --------------------------
+// The mempool answers EventTxListByHash with one entry per requested hash (nil when absent).
+//@ trusted func (*github.com/33cn/chain33/system/p2p/dht/protocol.P2PEnv).QueryModule
+//@   frame nothing
+//@   ensures result1 == nil && istype(result0, types.ReplyTxList) && cast(result0, types.ReplyTxList) != nil && istype(data, types.ReqTxHashList) ==> len(cast(result0, types.ReplyTxList).Txs) == len(cast(data, types.ReqTxHashList).Hashes)
+//@   ensures result1 == nil && istype(result0, types.ReplyTxList) ==> cast(result0, types.ReplyTxList) != nil
+//@ pure func (*github.com/33cn/chain33/types.Transaction).GetTxGroup
+//@ pure func (*broadcastProtocol).postBlockChain
+//@ pure func (github.com/libp2p/go-libp2p/core/peer.ID).String
+
+// ---- C33 / C34: rebuilding a pending light block never indexes outside the block ------------------
+// Runs in pendBlockLoop, which has no recover: a panic here stops the node.
+//@ func (*ltBroadcast).buildPendBlock [C33,C34]
+//@   opt overflow=assumed
+//@   requires pd != nil && pd.block != nil && l.broadcastProtocol != nil && l.broadcastProtocol.P2PEnv != nil
+//@   requires forall i :: 0 <= i && i < len(pd.block.Txs) && pd.block.Txs[i] == nil ==> i < len(pd.sTxHashes)
+//@   loop 0 invariant len(pd.notExistTxIndices) == len(pd.notExistTxHashes)
+//@   loop 0 invariant forall k :: 0 <= k && k < len(pd.notExistTxIndices) ==> 0 <= pd.notExistTxIndices[k] && pd.notExistTxIndices[k] < len(pd.block.Txs)
